@@ -11,7 +11,10 @@ CONSTANT Check
 Rec == ndJsonDeserialize(IOEnv.TRACE)
 VARIABLE l
 xvars == <<orig, keep, old, newT, rmap, stack, cursor, pc, phread, l>>
-KeepOf(e) == {e.keep[k] : k \in 1..Len(e.keep)}
+\* the filter is a total predicate on numbers: e.keep lists the accepted ids of the registry, e.outside is
+\* its answer for every number that is no id (|_| true, |i| i # k ... accept such numbers)
+KeepOf(e) == {e.keep[k] : k \in 1..Len(e.keep)} \cup
+             (IF "outside" \in DOMAIN e /\ e.outside THEN {Len(e.old), Len(e.old) + 1, 2147483647} ELSE {})
 XInit == l = 1 /\ TInitWith(Rec[1].old, KeepOf(Rec[1]))
 XStep == pc = "loop" /\ RNext /\ l' = l
 MapOf(ps) == [i \in {ps[k][1] : k \in 1..Len(ps)} |-> (CHOOSE k \in 1..Len(ps) : ps[k][1] = i) ]
